@@ -10,6 +10,7 @@ func initHashMap() {
 	RegisterNativeClass("Std::HashMap", "value.HashMapClass")
 
 	HashMapIteratorClass = NewClass()
+	HashMapIteratorClass.IncludeMixin(ResettableIteratorBaseMixin)
 	HashMapClass.AddConstantString("Iterator", Ref(HashMapIteratorClass))
 	RegisterNativeClass("Std::HashMap::Iterator", "value.HashMapIteratorClass")
 }
